@@ -15,6 +15,10 @@ fn main() -> Result<(), Box<dyn std::error::Error>> {
     // Rebuild when proto file changes
     println!("cargo:rerun-if-changed=proto/kyrodb.proto");
 
+    // `--cfg kyrodb_verif` enables the verification hooks (src/verif_hooks.rs); declare it so the
+    // normal build does not warn about an unexpected cfg name.
+    println!("cargo:rustc-check-cfg=cfg(kyrodb_verif)");
+
     // ============================================================================
     // STEP 2: Capture build metadata
     // ============================================================================
